@@ -190,3 +190,32 @@ void h_funcall(void)
     } else
         __CPROVER_assert(g_rep_calls == 0 && ex.u.funcall.function == &fn && !(ex.symbol.resolved & RESOLVE_FAILED), "a call with the right number of arguments is accepted and bound to the function");
 }
+
+/* C04/C20/C06 (names used as expressions): an undefined name is rejected (UNDEFINED, quoting it); a function that has parameters but is
+ * used without an argument list is diagnosed with its name, 0 arguments used and the number expected - without touching invalid memory */
+void h_identifier(void)
+{
+    IN(int, in_found); IN(int, in_pcount);
+    static struct Expression_ ex; static struct Scope_ t_id, fn, scope, t_fc, t_unk, t_ret; static struct TypeHead_ h_id; static struct TypeBody_ b_id; static struct Function_ fu; static char n_f[4] = "fun";
+    __CPROVER_assume(in_pcount >= 0 && in_pcount <= 1000);
+    t_id.u.type = &h_id; h_id.body = &b_id; b_id.type = identifier_;
+    ex.type = &t_id; ex.symbol.name = n_f; ex.symbol.resolved = 0;
+    scope.type = OBJ_SCHEMA; scope.enum_table = 0;
+    fn.u.func = &fu; fu.pcount = in_pcount; fu.return_type = &t_ret;
+    Type_Funcall = &t_fc; Type_Unknown = &t_unk;
+    g_attr_where = 0;                                   /* not a variable / attribute */
+    g_sf_result = in_found ? &fn : 0; g_sf_kind = OBJ_FUNCTION; g_sf_calls = 0; g_listadd_calls = 0;
+    g_rep_calls = g_rep_error_class = 0;
+    EXP_resolve(&ex, &scope, 0);
+    if (!in_found) {
+        __CPROVER_assert(g_rep_error_class == 1 && g_rep_errnum == UNDEFINED && (ex.symbol.resolved & RESOLVE_FAILED), "C04 a reference to an undefined name is rejected with UNDEFINED and the expression marked failed");
+        __CPROVER_assert(g_rep_sym == &ex.symbol && g_rep_a1 == (const void *)n_f, "C20 the diagnostic is attributed to the reference and quotes the undefined name");
+    } else {
+        __CPROVER_assert(ex.type == &t_fc && ex.return_type == &t_ret && g_listadd_calls == 1 && g_listadd_item == (void *)&fn, "a bare function name becomes a call of that function without arguments");
+        if (in_pcount != 0) {
+            __CPROVER_assert(g_rep_calls == 1 && g_rep_errnum == WRONG_ARG_COUNT && (ex.symbol.resolved & RESOLVE_FAILED), "C04 a function that has parameters but is used without an argument list is diagnosed and the expression marked failed");
+            __CPROVER_assert(g_rep_sym == &ex.symbol && g_rep_a1 == (const void *)n_f && g_rep_i1 == 0 && g_rep_i2 == in_pcount, "C20 the diagnostic quotes the function's name, 0 arguments used and the number of parameters expected");
+        } else
+            __CPROVER_assert(g_rep_calls == 0 && !(ex.symbol.resolved & RESOLVE_FAILED), "a parameterless function used by name is accepted");
+    }
+}
